@@ -323,6 +323,8 @@ class C11(PropertyCheck):
         shapes = list(interleaved_shapes(full=ctx.thorough))
         if not ctx.thorough:
             shapes = shapes[:315] + rng.sample(shapes[315:], 300)
+        else:                   # all G1; F; G2 triples over the one-qubit names, a sample of the longer shapes
+            shapes = shapes[:10125] + rng.sample(shapes[10125:], 30000)
         batch = [(specs_from(seq), [d * sc.DEN for d in durs], m, p, k % 5 == 0)
                  for k, (seq, durs) in enumerate(shapes) for m, p in settings]
         self._flush(ctx, res, batch, "interleaved")
